@@ -923,13 +923,18 @@ def c_probe(header, ref, skip=frozenset()):
     with open(src, "w") as f:
         f.write(c_probe_source(base, ref, skip))
     rc, _o, err = _run(["gcc", *GCC_FLAGS, "-O0", "-o", exe, src], cwd=d)
+    gcc_warn = "\n".join(l for l in err.splitlines() if "warning" in l)[:300]
     if rc != 0:
         ok, herr = c_syntax_only(header)
         sig["load_error"] = {"type": "header-does-not-compile" if not ok else "probe-does-not-compile", "msg": herr if not ok else _first_errors(err)}
         return sig
     rc, out, err = _run([exe], cwd=d)
+    if rc < 0:
+        # e.g. a string-constant macro that the header redefines as a number: the probe compiled (with warnings) but cannot run
+        sig["load_error"] = {"type": "probe-crashed", "msg": f"the probe compiled against the header but died with signal {-rc}; gcc had warned: {gcc_warn}"}
+        return sig
     if rc != 0:
-        raise HarnessError(f"C probe crashed rc={rc}: {err[:300]}")
+        raise HarnessError(f"C probe failed rc={rc}: {err[:300]}")
     try:
         raw = json.loads(out)
     except ValueError as e:
